@@ -733,6 +733,13 @@ def case_stloop_f21(acc, st, case, rng):
                 raise RuntimeError("lz4 failed to compress: " + err[-200:])
             frames.append(fr)
         acc.stats["stloop_f21"] += 1
+        rd = st["rd"]; src = rd.write("two.lz4", frames[0] + frames[1]); so = rd.f("two.out")
+        rc, _, err = run_cli(ctx["ST"], ["-d", "-c", "-q"], stdin_path=src, stdout_path=so, cwd=rd.path)
+        got = open(so, "rb").read() if os.path.exists(so) else b""
+        if rc != 0 or got != A + B:
+            acc.fail("prop_fail", "F21: single-thread lz4 -d of two concatenated frames (%s -BX --no-frame-crc) exits %d with %d of %d bytes: "
+                     "the loop read beyond the end of the first frame (LZ4F hint too large) and dropped the bytes" % (bs, rc, len(got), len(A + B)),
+                     stderr=err[-200:], frame1=len(frames[0]), frame2=len(frames[1]))
         stloop_one(acc, st, frames[0] + frames[1], "F21 two frames %s -BX --no-frame-crc" % bs, frame_len=len(frames[0]), content=A)
 
 def case_stloop(acc, st, case, rng):
